@@ -44,6 +44,37 @@ def build(tier, rnd):
     d1 = [(k, s) for k, s in sqlgen.enumerate_depth1(1) if k[0] in ("insert", "ctas", "create_view", "insert_cols") and "mixed" not in k[1]]
     for k, s in (d1 if tier == "thorough" else d1[::3]):
         out.append((k, s, ["ansi"]))
+    out += same_alias_cases(45 if tier == "quick" else 600, common.env.seed() * 31 + 7)
+    return out
+
+
+def same_alias_cases(n, seed):
+    """the same alias carried by two different derived tables / CTE references in different scopes, exposing same-named columns"""
+    from vlib.sqlgen import Base, Derived, E, Group, Item, Select, SetOp, Stmt, col
+    rnd = random.Random(seed)
+    out = []
+    for i in range(n):
+        A, B, T = f"tb_sa{i}", f"tb_sb{i}", Base(f"tb_st{i}", rnd.choice([None, "sa"]))
+        c1, c2 = f"c_{rnd.randint(1, 5)}", f"c_{rnd.randint(6, 9)}"
+        al = rnd.choice(["s", "x1", "dq", "src"])
+        k = i % 3
+        if k == 0:
+            def side(tab, outer):
+                inner = Select([Item(col(c1)), Item(col(c2))], [Group(Base(tab))])
+                mid = Select([Item(col(c1, al)), Item(col(c2, al))], [Group(Derived(inner, al))])
+                return Derived(mid, outer)
+            cur, prev = side(A, "cur"), side(B, "prev")
+            q = Select([Item(col(c1, "cur")), Item(E("arith", col(c2, "cur"), col(c2, "prev"), fname="-"), "delta")], [Group(cur, [("inner", prev, "on")])])
+        elif k == 1:
+            b1 = Select([Item(col("a", al)), Item(col("b", al))], [Group(Derived(Select([Item(col(c1), "a"), Item(col(c2), "b")], [Group(Base(A))]), al))])
+            b2 = Select([Item(col("b", al), "a"), Item(col("a", al), "b")], [Group(Derived(Select([Item(col(c1), "a"), Item(col(c2), "b")], [Group(Base(B))]), al))])
+            q = SetOp(rnd.choice(["union all", "union"]), [b1, b2])
+        else:
+            outer = Derived(Select([Item(col("k_1")), Item(col(c1), "v")], [Group(Base(A))]), al)
+            inner = Derived(Select([Item(col("k_1")), Item(col(c2), "v")], [Group(Base(B))]), al)
+            bq = Derived(Select([Item(col("k_1", al)), Item(col("v", al))], [Group(inner)]), "bq")
+            q = Select([Item(col("v", al), "v1"), Item(col("v", "bq"), "v2")], [Group(outer, [("inner", bq, "on")])])
+        out.append((("same_alias", i), Stmt("insert", T, q), ["ansi", rnd.choice(["postgres", "sparksql", "mysql", "snowflake", "non-validating"])]))
     return out
 
 
